@@ -14,7 +14,8 @@ def exc_diff(spec, mods, exc):
         if "/gtirb_rewriting/" in fr.filename:
             where = fr.name
             line = (fr.line or "")[:80]
-    pat = "mod-at-end-of-emptied-block" if f18_pattern(spec, mods) else "other"
+    mods = Lg.expand_delfunc(spec, mods)
+    pat = "mod-at-end-of-emptied-block" if f18_pattern(spec, [m for m in mods if m["op"] != "scope"]) else "other"
     ends_in_call = any(
         m["op"] in ("ins", "rep") and isinstance(m["p"], list) and [t for t in m["p"] if t[0] not in ("lab", "cfi")][-1:]
         and [t for t in m["p"] if t[0] not in ("lab", "cfi")][-1][0] in ("call", "icall")
@@ -58,7 +59,7 @@ def label_roles(spec, mods):
         for b in s["blocks"]:
             nins[b["n"]] = len(b["i"])
             order.append(b)
-    for m in mods:
+    for m in Lg.expand_delfunc(spec, mods):
         if m["op"] == "scope":
             continue
         n = nins[m["b"]]
@@ -76,6 +77,8 @@ def label_roles(spec, mods):
                     e.add("tail")
                 if k > 0 and k + c < n:
                     e.add("mid")
+    splitting = ("jmp", "jcc", "call", "ret", "ijmp", "icall", "lab", "callplt", "syscall")
+    barrier = {m["b"] for m in mods if m["op"] in ("ins", "rep") and isinstance(m.get("p"), list) and any(t[0] in splitting for t in m["p"])}
     roles = {}
     for i, b in enumerate(order):
         nxt = order[i + 1]["n"] if i + 1 < len(order) else None
@@ -86,6 +89,7 @@ def label_roles(spec, mods):
             "r_owner_tail_deleted": "tail" in edits.get(b["n"], ()),
             "r_owner_whole_deleted": bool({"whole", "whole-proxy"} & edits.get(b["n"], set())),
             "r_next_proxied": nxt is not None and "whole-proxy" in edits.get(nxt, ()),
+            "r_owner_unjoinable_patch": b["n"] in barrier,
         }
         for L in Lg.start_labels(b):
             roles[L] = dict(base, r_label="start")
@@ -111,6 +115,7 @@ def run_scenario(spec, mods, aspects, problem_kinds=(), want_world=False):
     E, expect = Lg.expected(spec, mods)
     E.label_roles = label_roles(spec, mods)
     E.spec = spec
+    E.deleted_functions = {m["f"] for m in mods if m["op"] == "delfunc"}
     w, exc = Lg.rewrite(spec, mods)
     if exc is not None:
         if expect is not None and is_documented_refusal(exc):
